@@ -40,7 +40,7 @@ theorem frame_own (s : State) (a b c : Nat) : Frame s (s.own a b c) := by
 theorem frame_mergeInto (s : State) (oi : Nat) (o : Obj) (d : J) : Frame s (mergeInto s oi o d).1 := by
   unfold mergeInto
   simp only
-  exact Frame.trans (Frame.trans (b := s.setCell o.cell (updNode s.fam (s.root o) d s.next).val)
+  exact Frame.trans (Frame.trans (b := (s.setCell o.cell (updNode s.fam (s.root o) d s.next).val).syncFrom o.cell)
     (Frame.of_eq rfl rfl rfl rfl rfl) (frame_own _ _ _ _)) (Frame.of_eq rfl rfl rfl rfl rfl)
 
 /-- objects' (file, counter) and the context counter determine who is buffered -/
